@@ -175,7 +175,9 @@ def evaluate(prop, scns, variant, want_model=True):
     """run scenarios; returns list of problems: dict(kind, key, scn, text)"""
     want_model = want_model and not getattr(prop, 'NO_MODEL', False)
     impl = common.run_impl(variant, scns)
-    model = common.run_model(scns) if want_model else {}
+    # scenarios marked impl_only use harness features the model has no counterpart for (e.g. a callback that starts
+    # a nested parse): they are judged by the oracle alone
+    model = common.run_model([s for s in scns if not s.meta.get('impl_only')]) if want_model else {}
     problems = []
     stats = dict(nontrivial=set(), evaluations=0)
     oracle = getattr(prop, 'oracle', None)
@@ -188,7 +190,7 @@ def evaluate(prop, scns, variant, want_model=True):
             res = oracle(s, il or [], ml or []) if oracle.__code__.co_argcount >= 3 else oracle(s, il or [])
             for key, text in res:
                 problems.append(dict(kind='oracle', key=key, scn=s, text=text))
-        if want_model:
+        if want_model and not s.meta.get('impl_only'):
             d = compare(prop, s, il, ml)
             if d:
                 problems.append(dict(kind='correspondence', key='correspondence', scn=s, text=d))
